@@ -1028,6 +1028,6 @@ RULES = [
     ('C03-R14', r14_writer_tests_truth_not_presence, 15),
     ('C03-R15', r15_writer_metadata_complete, 3),
     ('C03-R16', r16_exported_rows_as_prescribed, 40),
-    ('C03-R17', r17_writer_attributes_reach_the_element, 10),
+    ('C03-R17', r17_writer_attributes_reach_the_element, 3),
     ('C03-R18', r18_preserved_text_survives_export, 5),
 ]
